@@ -230,6 +230,9 @@ def run(ck):
             '[C', 'C]', '[]', '[[C]]', '[C@@@H]', '[CH5]', '[CH0]', '[C+5]', '[1000C]', '[012C]', '[C:12345]', '[Xx]', '[co]',
             '[cH-]1cccc1', 'c1cc[nH]c1', 'c1ccncc1', '[n+]1ccccc1', 'C[N+](C)(C)C', 'C[N+](=O)[O-]', 'N#N', '[C-]#[O+]', '*', '[*]',
             'C$C', 'CC(=O)O[H]', 'C.[C@H](F)(Cl)Br', '[Na+].[C@@H](F)(Cl)Br', '[C@H](F)(Cl)Br.[C@H](F)(Cl)Br', 'C1.[C@H]1(F)Cl', 'C(.[C@H](F)(Cl)Br)C', 'O.[C@@H](C)(N)O.[C@H](C)(N)O', '[C@H](F)(Cl)[H]', '[C@](F)(Cl)([H])Br']
+    # a marked atom that opens two or three ring closures, closed in nested, interleaved and mixed order
+    edge += ['C[C@]12CCCC[C@H]2CCCC1', 'C[C@]12CCCC[C@H]1CCCC2', 'O[C@@]12CC[C@@H](C)C2CCO1', 'F[C@]1%12CCC[C@@H]%12OCC1', 'F[C@]1%12CCC[C@@H]1OCC%12', '[C@]12(F)CCC2CCC1', '[C@@]12(F)CCC1CCC2',
+             'C[C@]123CCC1CCC2CCC3', 'C[C@]123CCC3CCC2CCC1', 'C[C@]123CCC2CCC3CCC1', 'N[C@@]12CC1CC2', 'N[C@@]12CC2CC1', 'C[C@@H]1CC[C@]21CCCO2', 'C[C@@H]1CC[C@]12CCCO2', 'F[C@]12CC(C1)C2', 'F[C@]12CC(C2)C1']
     edge = sorted(set(edge))
     parts.append(('edge', [{'key': s, 's': s} for s in edge], False))
 
